@@ -90,6 +90,40 @@ def run_case(prop: str, case: dict) -> dict:
         shutil.rmtree(tmp, ignore_errors=True)
 
 
+def run_metamorph(prop: str, name: str, base_keys) -> dict:
+    """the property's rule set on a behaviour-preserving transformation of the whole package: same failing keys"""
+    from .metamorph import transform
+    tmp = tempfile.mkdtemp(prefix="sfa_selftest_")
+    try:
+        _copy_pkg(tmp)
+        try:
+            transform(tmp, name)
+        except SyntaxError as e:  # the tree under analysis does not parse: not this test's business
+            return {"id": "metamorph:" + name, "status": "stale", "why": str(e)}
+        env = dict(os.environ)
+        env["SFA_REPO"] = tmp
+        env["SFA_EVIDENCE_DIR"] = os.path.join(tmp, "evidence")
+        env["VERIF_TIER"] = "quick"
+        env["PYTHONDONTWRITEBYTECODE"] = "1"
+        r = subprocess.run([sys.executable, "-m", "sfa.main", prop, "--tier", "quick"], cwd=VERIF, env=env,
+                           capture_output=True, text=True, timeout=600)
+        keys = set()
+        vfile = os.path.join(tmp, "evidence", f"{prop}.violations.json")
+        if os.path.exists(vfile):
+            with open(vfile) as f:
+                keys = {v.get("key", "") for v in json.load(f)}
+        for line in r.stdout.splitlines():
+            if line.startswith("KNOWN-FINDING:"):
+                keys.add(line.split()[2])
+        ok = r.returncode in (0, 1) and keys == set(base_keys)
+        return {"id": "metamorph:" + name, "status": "ok" if ok else "FAILED", "expect": "same-keys", "rc": r.returncode,
+                "keys": sorted(keys ^ set(base_keys))[:6], "tail": r.stdout[-600:] if not ok else ""}
+    except subprocess.TimeoutExpired:
+        return {"id": "metamorph:" + name, "status": "FAILED", "why": "timeout"}
+    finally:
+        shutil.rmtree(tmp, ignore_errors=True)
+
+
 def cases_for(prop: str) -> List[dict]:
     try:
         mod = importlib.import_module(f"sfa.cases.{prop.lower()}")
@@ -102,17 +136,18 @@ def selftest(ctx, only=None):
     """run from the thorough tier of a property; raises AnalysisError if the checker fails its own test"""
     prop = ctx.prop
     cases = [c for c in cases_for(prop) if only is None or c["id"] in only]
-    if not cases:
-        ctx.note("selftest: no cases registered")
-        return
-    with ThreadPoolExecutor(max_workers=min(16, len(cases))) as ex:
-        results = list(ex.map(lambda c: run_case(prop, c), cases))
+    from .metamorph import T as TRANSFORMS
+    base_keys = {o.key for o in ctx.obls if not o.ok}
+    jobs = [("case", c) for c in cases] + ([("meta", n) for n in sorted(TRANSFORMS)] if only is None else [])
+    with ThreadPoolExecutor(max_workers=min(16, len(jobs))) as ex:
+        results = list(ex.map(lambda j: run_case(prop, j[1]) if j[0] == "case" else run_metamorph(prop, j[1], base_keys), jobs))
     failed = [r for r in results if r["status"] == "FAILED"]
     stale = [r for r in results if r["status"] == "stale"]
     okc = [r for r in results if r["status"] == "ok"]
     ctx.note(f"selftest: {len(okc)} ok, {len(stale)} stale, {len(failed)} failed of {len(results)} variants "
              f"({sum(1 for c in cases if c['expect'] == 'fire')} mutation witnesses, "
-             f"{sum(1 for c in cases if c['expect'] == 'silent')} behaviour-preserving twins)")
+             f"{sum(1 for c in cases if c['expect'] == 'silent')} behaviour-preserving twins, "
+             f"{sum(1 for j in jobs if j[0] == 'meta')} whole-package behaviour-preserving transformations)")
     ctx.selftest = {"ok": len(okc), "stale": [r["id"] + ": " + r.get("why", "") for r in stale],
                     "failed": failed, "total": len(results)}
     for r in stale:
